@@ -135,7 +135,7 @@ var c42NonEmpty = map[string]bool{"SortStore#1": true}
 var c42Strings = []string{"", "k", "key:{1}", "a b", "\x00\xff", "-", "+", "(1", "[a", "+inf", "-inf", "0", "*", "$", "0-1", "héllo"}
 
 func c42GenScalarAny(rt *rapid.T) any {
-	switch rapid.IntRange(0, 6).Draw(rt, "anykind") {
+	switch rapid.IntRange(0, 7).Draw(rt, "anykind") {
 	case 0:
 		return rapid.SampledFrom([]int{0, 1, -7, 42}).Draw(rt, "int")
 	case 1:
@@ -146,9 +146,22 @@ func c42GenScalarAny(rt *rapid.T) any {
 		return rapid.Bool().Draw(rt, "bool")
 	case 4:
 		return []byte(rapid.SampledFrom(c42Strings).Draw(rt, "bytes"))
+	case 5:
+		// go-redis writes a time.Time argument as RFC3339Nano text (proto.Writer.WriteArg handles it before the
+		// encoding.BinaryMarshaler case, although time.Time implements that interface) and any other
+		// BinaryMarshaler as its MarshalBinary bytes
+		if rapid.Bool().Draw(rt, "timeOrMarshaler") {
+			return rapid.SampledFrom([]time.Time{time.Unix(1546335910, 222125).UTC(), time.Unix(1700000000, 0).UTC(), time.Unix(1, 999999999).UTC()}).Draw(rt, "timeval")
+		}
+		return c42Marshaler{rapid.SampledFrom(c42Strings).Draw(rt, "marshaled")}
 	}
 	return rapid.SampledFrom(c42Strings).Draw(rt, "str")
 }
+
+// c42Marshaler is a user type that serialises itself (encoding.BinaryMarshaler).
+type c42Marshaler struct{ s string }
+
+func (m c42Marshaler) MarshalBinary() ([]byte, error) { return []byte("bin:" + m.s), nil }
 
 func c42Gen(rt *rapid.T, t reflect.Type, hint string) (v reflect.Value, ok bool) {
 	v = reflect.New(t).Elem()
@@ -742,6 +755,11 @@ func c42GrArg(v any) string {
 		return "0"
 	case time.Duration:
 		return strconv.FormatInt(x.Nanoseconds(), 10)
+	case time.Time:
+		return x.Format(time.RFC3339Nano)
+	case c42Marshaler:
+		b, _ := x.MarshalBinary()
+		return string(b)
 	}
 	panic(fmt.Sprintf("harness: c42GrArg(%T)", v))
 }
